@@ -3,7 +3,8 @@
         <cfg>     "gen" (configuration extracted from the current ev.c) or five 0/1 digits
                   pushBlocksStrict choiceReadyStrict choiceGiveSeesReader popSkipsStaleWriter closeChecksSched
         <limits>  comma separated channel capacities, "-" for none;  <rng> comma separated u32 stream, "-" for none
-        ops       g<c>:<x> give | t<c> take | c<c> close | y (ev/sleep 0) | s:<cl>,<cl>.. select | r:<cl>,.. rselect
+        ops       g<c>:<x> give | t<c> take | c<c> close | y[<ms>] (ev/sleep ms/1000) | x<g> (ev/cancel g) |
+                  d<ms>:<n> (ev/with-deadline ms/1000 <next n ops>) | s:<cl>,<cl>.. select | r:<cl>,.. rselect
                   clause  t<c> | g<c>:<x>
     Q <ops>                    p<n> push | h<n> push_head | o pop   -> per op "rc/popped/cap/head/tail/count[contents]"
 -/
@@ -29,7 +30,15 @@ def parseClause (s : String) : Option Clause :=
 
 def parseOp (s : String) : Option Op :=
   match s.toList with
-  | ['y'] => some .sleep0
+  | ['y'] => some (.sleep 0)
+  | 'y' :: r => (String.ofList r).toNat?.map Op.sleep
+  | 'x' :: r => (String.ofList r).toNat?.map Op.cancel
+  | 'd' :: r =>
+    match (String.ofList r).splitOn ":" with
+    | [ms, n] => match ms.toNat?, n.toNat? with
+      | some ms, some n => some (.deadline ms n)
+      | _, _ => none
+    | _ => none
   | 't' :: r => (String.ofList r).toNat?.map Op.take
   | 'c' :: r => (String.ofList r).toNat?.map Op.close
   | 'g' :: _ => match parseClause s with
@@ -84,7 +93,8 @@ def stepLine (_ : Unit) (toks : List String) : Unit × String :=
       let fibs := (splitFibers rest).map (fun ts => ts.filterMap parseOp)
       let nbad : Nat := ((splitFibers rest).map (fun ts => (ts.filter (fun t => (parseOp t).isNone)).length)).foldl (· + ·) 0
       if nbad > 0 then ((), "bad-op")
-      else ((), Prog.render cfg { limits := parseNats limits, fibers := fibs, rng := parseNats rng })
+      else ((), Prog.render cfg { limits := parseNats limits, fibers := fibs, rng := parseNats rng,
+                                   clockStart := 100000, clockStep := 16 })
   | "Q" :: ops => ((), runQ ops)
   | _ => ((), "bad-op")
 
